@@ -289,6 +289,13 @@ func oracleC12CLI(p *Pair, env *Env, a [][]byte) *Failure {
 	if cmpGh.exit == 0 {
 		return &Failure{What: "compare --all in GitHub mode exits 0 although a stored operand differs", Detail: fmt.Sprintf("%q", cmpGh.stdout)}
 	}
+	// other spellings of the option: whatever the tool makes of them (GitHub mode, or a refusal), a run over a tree with
+	// a stale operand that was asked for GitHub output never ends with status 0
+	for _, sp := range [][]string{{"-o", "GitHub"}, {"-o", "GITHUB"}, {"--output=github"}, {"-ogithub"}, {"--output", "Github"}} {
+		if c := runCLI(env, sb, nil, append(append([]string{"-l", "disabled"}, sp...), "regex", "compare", "-a")...); c.exit == 0 {
+			return &Failure{What: "compare --all asked for GitHub output (" + strings.Join(sp, " ") + ") exits 0 although a stored operand differs", Detail: fmt.Sprintf("%q", c.stdout)}
+		}
+	}
 	// update repairs the edit: the file is again what the first update wrote
 	rep := runCLI(env, sb, nil, "-l", "disabled", "regex", "update", arg)
 	after3, _ := os.ReadFile(filepath.Join(sb, rulesRel))
@@ -316,6 +323,60 @@ func oracleC12CLI(p *Pair, env *Env, a [][]byte) *Failure {
 			}
 			break
 		}
+	}
+	return nil
+}
+
+// a rules directory with a second file whose name matches the lookup pattern of the rule's prefix but is no rules file
+// (an editor's backup, swap or auto-save file, a patch reject, a directory): update either refuses loudly and writes
+// nothing, or rewrites the operand in the rules file and nothing else; compare then agrees with it.
+// args: rules file content, id, chain offset (decimal), assembly source, stray file name
+func oracleC11Strays(p *Pair, env *Env, a [][]byte) *Failure {
+	content, id, k, src, stray := a[0], string(a[1]), num(a[2]), a[3], string(a[4])
+	sb := mkSandbox(env)
+	defer os.RemoveAll(sb)
+	arg := id
+	if k > 0 {
+		arg = fmt.Sprintf("%s-chain%d", id, k)
+	}
+	base := "REQUEST-" + id[:3] + "-APPLICATION-ATTACK-X"
+	rulesRel := "rules/" + base + ".conf"
+	strayRel := "rules/" + strings.ReplaceAll(stray, "BASE", base)
+	t := Tree{"regex-assembly/" + arg + ".ra": src, rulesRel: content, "regex-assembly/include/": nil}
+	if strings.HasSuffix(strayRel, "/") {
+		t[strayRel] = nil
+	} else {
+		t[strayRel] = content // a copy of the rules file: it would take an update just as well
+	}
+	_ = t.write(sb)
+	gen := runCLI(env, sb, nil, "-l", "disabled", "regex", "generate", arg)
+	if gen.exit != 0 {
+		return nil
+	}
+	before := snapshot(sb)
+	up := runCLI(env, sb, nil, "-l", "disabled", "regex", "update", arg)
+	d := diffSnap(before, snapshot(sb))
+	if up.exit != 0 {
+		if len(d) > 0 {
+			return &Failure{What: "a failing update wrote to the tree", Detail: fmt.Sprintf("stray %s: %s", strayRel, strings.Join(d, ", "))}
+		}
+		return nil
+	}
+	for _, x := range d {
+		if x != "changed "+rulesRel {
+			return &Failure{What: "update touched something else than the rules file of the addressed rule", Detail: fmt.Sprintf("stray %s: %s", strayRel, strings.Join(d, ", "))}
+		}
+	}
+	after, _ := os.ReadFile(filepath.Join(sb, rulesRel))
+	rd := p.Impl(Op{"update.read", [][]byte{after, []byte(id), bytes.Repeat([]byte{'x'}, k)}}, env.timeout)
+	if rd.Status != "ok" || !bytes.Equal(rd.Out[0], gen.stdout) {
+		if bytes.Contains(gen.stdout, []byte(`\x5c"`)) {
+			return nil // D09, reported by the round-trip oracle
+		}
+		return &Failure{What: "update reports success but the rules file does not hold the generated regex", Detail: fmt.Sprintf("stray %s: generate %q stored %s", strayRel, gen.stdout, rd.String())}
+	}
+	if c := runCLI(env, sb, nil, "-l", "disabled", "regex", "compare", arg); c.exit != 0 {
+		return &Failure{What: "compare reports a change right after a successful update", Detail: fmt.Sprintf("stray %s: exit %d", strayRel, c.exit)}
 	}
 	return nil
 }
@@ -373,6 +434,8 @@ func genUpdateCases(r *rand.Rand, tier string, prop string) []Case {
 			}
 			c.Kind = "rules-file+cli"
 			c.Oracles = append(c.Oracles, Op{"c12.cli", [][]byte{[]byte(rf.content), []byte(tg.id), []byte(strconv.Itoa(tg.chain)), []byte(p.Input)}})
+			stray := []string{"BASE.bak", "#BASE.conf#", ".BASE.conf.swp", "BASE.conf.orig", "BASE.conf~", "BASE.conf.rej", "BASE.d/", "0-BASE.conf.disabled", "BASE"}[i%9]
+			c.Oracles = append(c.Oracles, Op{"c11.strays", [][]byte{[]byte(rf.content), []byte(tg.id), []byte(strconv.Itoa(tg.chain)), []byte(p.Input), []byte(stray)}})
 		}
 		cases = append(cases, c)
 	}
@@ -390,6 +453,7 @@ func genUpdateCases(r *rand.Rand, tier string, prop string) []Case {
 }
 
 func init() {
+	oracles["c11.strays"] = oracleC11Strays
 	rule := "rules files in CRS layout (1..6 rules, chains of length 0..3, neighbouring ids with a common prefix, negated and other operators, comments and msg actions mentioning ids, CRLF, missing final newline, trailing blanks after the continuation) x new regexes containing `$`, `\\\"`, `\"@rx `-like text, spaces, backslashes; the generator records the byte span of the addressed operand; " +
 		"non-trivial = the file has at least two @rx operands; distinct by (file, target, regex)"
 	properties["C11"] = &Property{ID: "C11", LeanMods: []string{"CrsProps.C11"}, Corr: "K7 (updateRegex, readCurrentRegex vs Crs.Update), K10 (update binary)", Rule: rule,
